@@ -85,12 +85,120 @@ def sanitiser(call: ast.Call):
     return (True, dots, f"re.sub({pat.value!r}, {repl.value!r}, .)")
 
 
+def _must_exit(stmts) -> bool:
+    for s in stmts:
+        if isinstance(s, (ast.Return, ast.Raise, ast.Continue)):
+            return True
+        if isinstance(s, ast.If) and s.orelse and _must_exit(s.body) and _must_exit(s.orelse):
+            return True
+    return False
+
+
+NORMALISERS = ("os.path.abspath", "os.path.realpath", "os.path.normpath")
+
+
+def containment_guards(fn: ast.FunctionDef) -> dict[str, tuple[ast.If, str]]:
+    """names of `fn` that hold a *normalised* path (abspath / realpath / normpath, bound once) and are
+    checked against a base directory by a guard whose failing branch leaves the function, the guard
+    standing in the function's own body after the binding:
+        os.path.commonpath([base, p]) != base   |   not p.startswith(base + os.sep)   |   not p.is_relative_to(base)
+    (character-wise os.path.commonprefix is *not* a containment test: '/srv/store' is a prefix of
+    '/srv/store_old'; neither is startswith(base) without the separator).  -> {name: (guard, base text)}"""
+    out = {}
+    binds: dict[str, list[ast.AST]] = {}
+    for s_ in walk_no_nested(fn):
+        if isinstance(s_, ast.Assign) and len(s_.targets) == 1 and isinstance(s_.targets[0], ast.Name):
+            binds.setdefault(s_.targets[0].id, []).append(s_)
+    for i in body_nodoc(fn):
+        if not isinstance(i, ast.If):
+            continue
+        t, neg = i.test, False
+        while isinstance(t, ast.UnaryOp) and isinstance(t.op, ast.Not):
+            t, neg = t.operand, not neg
+        p = base = None
+        if isinstance(t, ast.Compare) and len(t.ops) == 1 and isinstance(t.ops[0], (ast.Eq, ast.NotEq)):
+            l, r = strip_cast(t.left), strip_cast(t.comparators[0])
+            call, other = (l, r) if isinstance(l, ast.Call) else (r, l)
+            if isinstance(call, ast.Call) and dotted(call.func) == "os.path.commonpath" and len(call.args) == 1 and isinstance(call.args[0], (ast.List, ast.Tuple)) and len(call.args[0].elts) == 2:
+                names = [norm(strip_cast(e)) for e in call.args[0].elts]
+                if norm(other) in names:
+                    base = norm(other)
+                    p = [n for n in names if n != base]
+                    p = p[0] if len(p) == 1 else None
+                    if isinstance(t.ops[0], ast.NotEq):
+                        neg = not neg
+        elif isinstance(t, ast.Call) and isinstance(t.func, ast.Attribute) and t.func.attr == "startswith" and len(t.args) == 1:
+            a = strip_cast(t.args[0])
+            ok_sep = False
+            if isinstance(a, ast.BinOp) and isinstance(a.op, ast.Add) and (norm(a.right) in ("os.sep", "os.path.sep") or (isinstance(a.right, ast.Constant) and a.right.value in ("/", "\\"))):
+                base, ok_sep = norm(a.left), True
+            elif isinstance(a, ast.Call) and dotted(a.func) == "os.path.join" and len(a.args) == 2 and isinstance(a.args[1], ast.Constant) and a.args[1].value == "":
+                base, ok_sep = norm(a.args[0]), True
+            if ok_sep:
+                p = norm(t.func.value)
+        elif isinstance(t, ast.Call) and isinstance(t.func, ast.Attribute) and t.func.attr == "is_relative_to" and len(t.args) == 1:
+            p, base = norm(t.func.value), norm(t.args[0])
+        if p is None or base is None:
+            continue
+        # `neg` True: the test holds when the path is NOT contained -> the body is the failing branch
+        failing = i.body if neg else i.orelse
+        if not failing or not _must_exit(failing):
+            continue
+        b = binds.get(p, [])
+        if len(b) != 1 or b[0].lineno >= i.lineno:
+            continue
+        v = strip_cast(b[0].value)
+        if not (isinstance(v, ast.Call) and (dotted(v.func) in NORMALISERS or (isinstance(v.func, ast.Attribute) and v.func.attr == "resolve"))):
+            continue
+        out[p] = (i, base)
+    return out
+
+
+def helper_summaries(module_tree: ast.Module) -> dict[str, str]:
+    """module-level functions every `return` of which hands back None or a name validated by a containment
+    guard against one of the function's own parameters: -> {function name: base parameter}"""
+    res = {}
+    for f in module_tree.body:
+        if not isinstance(f, ast.FunctionDef):
+            continue
+        g = containment_guards(f)
+        if not g:
+            continue
+        rets = [r for r in walk_no_nested(f) if isinstance(r, ast.Return)]
+        params = [a.arg for a in f.args.args]
+        bases = set()
+        ok = bool(rets)
+        for r in rets:
+            if r.value is None or (isinstance(r.value, ast.Constant) and r.value.value is None):
+                continue
+            nm = norm(r.value)
+            if nm in g and r.lineno > g[nm][0].lineno and g[nm][1] in params:
+                bases.add(g[nm][1])
+            else:
+                ok = False
+        # the base itself may be re-bound to its normalised form (`base = os.path.abspath(base)`): still the parameter
+        if ok and len(bases) == 1:
+            res[f.name] = bases.pop()
+    return res
+
+
 class Taint:
-    def __init__(self, fn: ast.FunctionDef, sources: set[str]):
+    def __init__(self, fn: ast.FunctionDef, sources: set[str], helpers: dict[str, tuple[str, list[str]]] | None = None):
         self.fn = fn
         self.sources = sources
         self.env: dict[str, V] = {}
+        self.helpers = helpers or {}
+        self.guards = containment_guards(fn)
         self.fixpoint()
+        # a guarded name is inside its base on every path that gets past the guard - when the base is not
+        # itself peer-controlled
+        for nm, (g, base) in self.guards.items():
+            try:
+                bexpr = ast.parse(base, mode="eval").body
+            except SyntaxError:
+                continue
+            if self.value(bexpr).kind in ("U", "P"):
+                self.env[nm] = V("P", dots=True, why=f"contained in {base} by the guard at line {g.lineno}")
 
     def fixpoint(self):
         for _ in range(12):
@@ -186,6 +294,12 @@ class Taint:
                 if s[0]:
                     return V("C", dots=s[1], why=s[2])
                 return V("T", why=f"insufficient sanitiser: {s[2]}")
+            if isinstance(e.func, ast.Name) and e.func.id in self.helpers:
+                base_param, params = self.helpers[e.func.id]
+                k = params.index(base_param)
+                barg = e.args[k] if k < len(e.args) else next((kw.value for kw in e.keywords if kw.arg == base_param), None)
+                if barg is not None and self.value(barg).kind in ("U", "P"):
+                    return V("P", dots=True, why=f"{e.func.id}() returns None or a path it checked to be inside {norm(barg)}")
             if fn in ("os.path.join", "Path", "pathlib.Path", "PurePath"):
                 return self._pathjoin([self.value(a) for a in e.args])
             if fn in ("os.path.abspath", "os.path.normpath", "os.path.realpath", "os.fspath", "str", "os.path.expanduser"):
@@ -329,7 +443,9 @@ def run(repo: Repo, rep: Report, tier: str) -> None:
             if sources:
                 n_handlers += 1
             rep.saw("functions with a write sink", f"{short}.{qualname(fn) or fn.name}")
-            ta = Taint(fn, sources)
+            hs = helper_summaries(m.tree)
+            helpers = {name: (bp, [a.arg for a in next(f for f in m.tree.body if isinstance(f, ast.FunctionDef) and f.name == name).args.args]) for name, bp in hs.items()}
+            ta = Taint(fn, sources, helpers)
             fq = f"{short}.{qualname(fn) or fn.name}"
             for c in walk_no_nested(fn):
                 if isinstance(c, ast.Call):
